@@ -534,16 +534,22 @@ theorem route_viaFunc (R : Rules) (d : Dir) (t : String) (p : Param) (fp : FPara
     (h : p.viaFunc = some fp) : route R d t p = doRoute R d t fp := by
   cases p <;> simp [Param.viaFunc] at h <;> subst h <;> rfl
 
+/-- a key-reading function (plain or nesting a re-entrant `Route`) answers from its own parameter -/
+theorem applyBeh_keyOf (b : Beh) (k : String) (fp : FParam) (h : b.keyOf = some k) :
+    applyBeh b fp = applyKey k fp := by
+  cases b <;> simp [Beh.keyOf] at h <;> subst h <;> rfl
+
 theorem route_names (R : Rules) (d : Dir) (t : String) (p : Param) (n : String)
     (h : RuleNames R t p n) : route R d t p = n := by
   cases h with
   | explicit => rfl
   | const hl hv => rw [route_viaFunc R d t p _ hv]; simp [doRoute, hl, applyBeh]
-  | key hl hk hg =>
-    rename_i l k
+  | key hl hb hk hg =>
+    rename_i l b k
     have hv : p.viaFunc = some (.kvs l) := by
       cases p <;> simp [Param.kvs?] at hk <;> subst hk <;> rfl
-    rw [route_viaFunc R d t p _ hv]; simp [doRoute, hl, applyBeh, hg]
+    rw [route_viaFunc R d t p _ hv]
+    simp [doRoute, hl, applyBeh_keyOf b k _ hb, applyKey, hg]
 
 /-- `RoutePID` for a rule that names `n ≠ ""` is the directory lookup of `n` -/
 theorem routePID_names (R : Rules) (d : Dir) (t : String) (p : Param) (n : String)
@@ -568,11 +574,11 @@ theorem routePID_fails (R : Rules) (d : Dir) (hd : d.Ok) (t : String) (p : Param
     · rw [routePID_names R d t p n hn hne]; exact getServicePID_none d hd n hk
   | emptyFunc hl hv => simp [routePID, route_viaFunc R d t p _ hv, doRoute, hl, applyBeh]
   | funcPanics hl hv hp => simp [routePID, route_viaFunc R d t p _ hv, doRoute, hl, hp]
-  | keyAbsent hl hk hgk =>
-    rename_i l k
+  | keyAbsent hl hb hk hgk =>
+    rename_i l b k
     have hv : p.viaFunc = some (.kvs l) := by
       cases p <;> simp [Param.kvs?] at hk <;> subst hk <;> rfl
-    simp [routePID, route_viaFunc R d t p _ hv, doRoute, hl, applyBeh, hgk]
+    simp [routePID, route_viaFunc R d t p _ hv, doRoute, hl, applyBeh_keyOf b k _ hb, applyKey, hgk]
   | badParam =>
     simp only [routePID, route, sentinels_ne.2.1, if_false]
     exact getServicePID_none d hd _ g2
